@@ -245,6 +245,27 @@ def work(item):
                         st.nt_key(fn, z, m, round(E, 9))
                         if name in ("KA", "LB", "L3M5", "M5N7", "M3Q1"):
                             st.sample("line:%s:%s" % (k, name), dict(config=config, fn=fn, Z=z, line=name, E=E, expected=exp, got=got), cap=1)
+    # energy-outer / element-inner pass: consecutive calls with identical E and different Z (a memo keyed on too few arguments shows only here)
+    if not quick or True:
+        zl = [z for z in zs if 1 <= z <= env.zmax]
+        rng2 = random.Random(mix(seed, "c08x", zs[0] if zs else 0))
+        for E in (3.0, 9.0, 21.0, 40.0, 95.0, 140.0):
+            rng2.shuffle(zl)
+            for z in zl:
+                T = env.transfer(z)
+                for k, suffix in KINDS.items():
+                    P = env.vacancies(z, E, k)
+                    for s in ("L3", "M5", "L1", "M2"):
+                        exp = T["fy"][s] * P[s] if (P.get(s) is not None and T["fy"][s] > 0) else None
+                        got = judge(st, env, config, "CS_FluorShell_Kissel_" + suffix, (z, env.shell[s], E), exp, s)
+                        if got is not None:
+                            st.nt_key("xz", z, s, k, E)
+    for z in zs:
+        zin = 1 <= z <= env.zmax
+        T = env.transfer(z) if zin else None
+        rng = random.Random(mix(seed, "c08h", z))
+        Es = energies(env, z, rng, 3 if quick else 25)
+        aw = env.v("AtomicWeight", z) if zin else None
         # exported helpers: affine in the upstream vacancies with slope T_kind
         if zin:
             for name, (target, kind, ups) in env.helpers.items():
